@@ -3,6 +3,8 @@ CONSTANTS
   F <- F_sound
   PreSet <- AllPre
   KindSet <- AllKinds
+  Deep = FALSE
+  RaceSet <- NoRace
 INIT Init
 NEXT Next
 INVARIANTS TypeOK ReplyMatches GlueSound ReferralSound NoForeignCached NoForeignUsed NeverDialled VictimTruth NoRelayOnHit NoForeignRelayed Emit
